@@ -421,6 +421,12 @@ func runProp(prop string) int {
 	}
 	// rule coverage: every rule must have matched at least one call site
 	for _, r := range rules {
+		if ruleHits[r.Name] == 0 && *flagFunc == "" && !r.Optional && len(r.Requires) == 0 {
+			// a rule that only states facts / purity: without a call site the facts are simply
+			// never established, and obligations that need them fail on their own
+			fmt.Printf("NOTE callrule %s matched no call site\n", r.Name)
+			continue
+		}
 		if ruleHits[r.Name] == 0 && *flagFunc == "" && !r.Optional {
 			fmt.Printf("BROKEN-CHECK callrule %s matched no call site (vacuous)\n", r.Name)
 			return 2
